@@ -52,6 +52,8 @@ pub static mut ALLOCS_TOP: i64 = 0;
 pub static mut TOPDROP: bool = false;
 pub static mut DOUBLE_FREE: [u32; 8] = [0; 8];
 pub static mut NDOUBLE: usize = 0;
+/// bytes requested from the allocator since the process started (always counted)
+pub static mut TOTAL_BYTES: u64 = 0;
 /// releases whose layout differs from the layout the block was allocated with
 pub static mut NBADREL: usize = 0;
 pub static mut TBL_LIVE: [i32; MAXID] = [0; MAXID];
@@ -128,6 +130,7 @@ pub unsafe fn reset() -> (i64, i64) {
 unsafe impl GlobalAlloc for Tracker {
     unsafe fn alloc(&self, layout: Layout) -> *mut u8 {
         let p = System.alloc(layout);
+        TOTAL_BYTES += layout.size() as u64;
         if TRACK && IN_LIB > 0 && !p.is_null() {
             if let Some(i) = insert(p as usize, layout.size(), layout.align()) {
                 LIVE_BLOCKS += 1;
